@@ -71,6 +71,82 @@ using ResU16 = nop::Result<Err, std::uint16_t>;
 using VarV1 = nop::Variant<V1, bool>;
 using VarU16 = nop::Variant<std::uint16_t, bool>;
 
+// the same table with one entry active in one definition and retired (DeletedEntry) in the other: NOT wire compatible
+// (the deleted side skips the value and never writes it), so the trait must say false; if it ever says true the wire
+// half of the lemma below refutes it
+struct TAct {
+  nop::Entry<std::uint16_t, 0> x;
+  nop::Entry<std::uint8_t, 1> y;
+  NOP_TABLE_HASH(13, TAct, x, y);
+};
+struct TDel {
+  nop::Entry<std::uint16_t, 0, nop::DeletedEntry> x;
+  nop::Entry<std::uint8_t, 1> y;
+  NOP_TABLE_HASH(13, TDel, x, y);
+};
+template <typename E>
+inline std::uint64_t tpresent(const E& e) { return e.empty() ? 0 : 1; }
+template <>
+struct Fmt<TAct> {
+  static void enc(fmt::Out& o, const TAct& v) {
+    fmt::put(o, FMT_TAB);
+    fmt::enc_uint(o, 13);
+    fmt::enc_uint(o, tpresent(v.x) + tpresent(v.y));
+    fmt::enc_entry(o, 0, v.x, 0);
+    fmt::enc_entry(o, 1, v.y, 0);
+  }
+  static bool dec(fmt::In& in, TAct* v) {
+    v->x.clear();
+    v->y.clear();
+    std::uint64_t count;
+    if (!fmt::dec_table_header(in, 13, &count)) return false;
+    for (std::uint64_t i = 0; i < count; i++) {
+      std::uint64_t id;
+      if (!fmt::dec_uint(in, 8, &id)) return false;
+      if (id == 0) { if (!fmt::dec_entry<std::uint16_t>(in, &v->x)) return false; }
+      else if (id == 1) { if (!fmt::dec_entry<std::uint8_t>(in, &v->y)) return false; }
+      else if (!fmt::skip_entry(in)) return false;
+    }
+    return true;
+  }
+};
+template <>
+struct Gen<TAct> {
+  static void make(TAct* v) {
+    if (nondet<bool>()) v->x = nondet<std::uint16_t>(); else v->x.clear();
+    if (nondet<bool>()) v->y = nondet<std::uint8_t>(); else v->y.clear();
+  }
+  static bool eq(const TAct& a, const TAct& b) { return a.x == b.x && a.y == b.y; }
+};
+template <>
+struct Fmt<TDel> {
+  static void enc(fmt::Out& o, const TDel& v) {
+    fmt::put(o, FMT_TAB);
+    fmt::enc_uint(o, 13);
+    fmt::enc_uint(o, tpresent(v.y));
+    fmt::enc_entry(o, 1, v.y, 0);
+  }
+  static bool dec(fmt::In& in, TDel* v) {
+    v->y.clear();
+    std::uint64_t count;
+    if (!fmt::dec_table_header(in, 13, &count)) return false;
+    for (std::uint64_t i = 0; i < count; i++) {
+      std::uint64_t id;
+      if (!fmt::dec_uint(in, 8, &id)) return false;
+      if (id == 1) { if (!fmt::dec_entry<std::uint8_t>(in, &v->y)) return false; }
+      else if (!fmt::skip_entry(in)) return false;
+    }
+    return true;
+  }
+};
+template <>
+struct Gen<TDel> {
+  static void make(TDel* v) {
+    if (nondet<bool>()) v->y = nondet<std::uint8_t>(); else v->y.clear();
+  }
+  static bool eq(const TDel& a, const TDel& b) { return a.y == b.y; }
+};
+
 // member-wise fungible structures: std::array member vs C array member
 struct SA {
   ArrU16 a;
@@ -293,3 +369,4 @@ VT_FUNG(lb8_lbi, vt::LB8, vt::LBI, true)
 VT_FUNG(optional, vt::OptV1, vt::OptU16, true)
 VT_FUNG(result, vt::ResV1, vt::ResU16, true)
 VT_FUNG(variant, vt::VarV1, vt::VarU16, true)
+VT_FUNG(tab_act_del, vt::TAct, vt::TDel, false)
